@@ -1,1 +1,287 @@
-(** Model/Parsers.v — placeholder, to be written. *)
+(** Model/Parsers.v — the built-in context parsers, [pypyr/parser/*.py].
+
+    One Gallina function per module's [get_parsed_context(args)], written the way the
+    Python is written (same branches, same order of dictionary writes):
+
+      pypyr.parser.keyvaluepairs -> [parse_keyvaluepairs]
+      pypyr.parser.argskwargs    -> [parse_argskwargs]
+      pypyr.parser.dict          -> [parse_dict]
+      pypyr.parser.list          -> [parse_list]
+      pypyr.parser.string        -> [parse_string]
+      pypyr.parser.keys          -> [parse_keys]
+      pypyr.parser.json          -> [parse_json]  (json.loads modelled for the fragment
+                                     objects / arrays / strings without u-escapes / integers /
+                                     true / false / null; [Unsup] beyond that)
+
+    [args] is what the parser receives: [None] or a list of strings.  A parser returns
+    [None] or a dict; [option dict] below. *)
+From PV Require Export PyVal.
+Open Scope string_scope.
+
+Definition args := option (list string).
+
+(** Python [not args] for [None] or a list. *)
+Definition args_falsy (a : args) : bool :=
+  match a with
+  | None => true
+  | Some [] => true
+  | Some (_ :: _) => false
+  end.
+
+Definition args_list (a : args) : list string :=
+  match a with Some l => l | None => [] end.
+
+Definition eq_char : ascii := "="%char.
+
+(** [k, _, v = element.partition('=')] *)
+Definition kv_of (s : string) : string * string :=
+  let '(k, _, v) := partition_first eq_char s in (k, v).
+
+Definition kv_pair (s : string) : val * val :=
+  let (k, v) := kv_of s in (VStr k, VStr v).
+
+(** A dict comprehension / [dict(iterable of pairs)]: the pairs are written in order into an
+    empty dict ([d[k] = v] each). *)
+Definition dict_of_pairs (l : list (val * val)) : dict := dict_update [] l.
+
+(** [{k: v for k, _, v in (element.partition('=') for element in args)}] *)
+Definition kvp_dict (l : list string) : dict := dict_of_pairs (map kv_pair l).
+
+Definition parse_keyvaluepairs (a : args) : option dict :=
+  if args_falsy a then None else Some (kvp_dict (args_list a)).
+
+Definition parse_dict (a : args) : option dict :=
+  if args_falsy a then Some [(VStr "argDict", VDict [])]
+  else Some [(VStr "argDict", VDict (kvp_dict (args_list a)))].
+
+Definition parse_list (a : args) : option dict :=
+  if args_falsy a then Some [(VStr "argList", VList [])]
+  else Some [(VStr "argList", VList (map VStr (args_list a)))].
+
+Definition parse_string (a : args) : option dict :=
+  if args_falsy a then Some [(VStr "argString", VStr "")]
+  else Some [(VStr "argString", VStr (join " " (args_list a)))].
+
+(** [dict((element, True) for element in args)] *)
+Definition keys_dict (l : list string) : dict :=
+  dict_of_pairs (map (fun s => (VStr s, VBool true)) l).
+
+Definition parse_keys (a : args) : option dict :=
+  if args_falsy a then None else Some (keys_dict (args_list a)).
+
+(** argskwargs: the loop body; state = ([out], [arg_list]). *)
+Definition akw_step (st : dict * list string) (a : string) : dict * list string :=
+  let '(k, sep, v) := partition_first eq_char a in
+  if sep then (sset k (VStr v) (fst st), snd st)
+  else (fst st, (snd st ++ [a])%list).
+
+Definition akw_finish (st : dict * list string) : dict :=
+  sset "argList" (VList (map VStr (snd st))) (fst st).
+
+Definition argskwargs_dict (l : list string) : dict :=
+  akw_finish (fold_left akw_step l ([], [])).
+
+Definition parse_argskwargs (a : args) : option dict :=
+  if args_falsy a then Some [(VStr "argList", VList [])]
+  else Some (argskwargs_dict (args_list a)).
+
+(** * [json.loads] for the fragment described at the top.
+    [Err "json.decoder.JSONDecodeError" ""] = malformed input (the message, which carries
+    a position, is not modelled); [Unsup] = valid or invalid JSON the model does not decide
+    (floats, u-escapes, NaN/Infinity, out of fuel). *)
+Definition jerr {A} : res A := Err "json.decoder.JSONDecodeError" "".
+
+Definition is_ws (c : ascii) : bool :=
+  let n := nat_of_ascii c in
+  Nat.eqb n 32 || Nat.eqb n 9 || Nat.eqb n 10 || Nat.eqb n 13.
+
+Fixpoint skip_ws (s : string) : string :=
+  match s with
+  | String c r => if is_ws c then skip_ws r else s
+  | EmptyString => s
+  end.
+
+(** After the opening quote: returns (decoded, rest after the closing quote). *)
+Fixpoint jstring (s : string) : res (string * string) :=
+  match s with
+  | EmptyString => jerr
+  | String c r =>
+      if Ascii.eqb c dquote then Ok (EmptyString, r)
+      else if Ascii.eqb c "\"%char then
+        match r with
+        | EmptyString => jerr
+        | String e r' =>
+            let n := nat_of_ascii e in
+            let put (d : nat) := let* (t, k) := jstring r' in Ok (String (ascii_of_nat d) t, k) in
+            if Nat.eqb n 34 then put 34%nat          (* backslash quote *)
+            else if Nat.eqb n 92 then put 92%nat     (* backslash backslash *)
+            else if Nat.eqb n 47 then put 47%nat     (* backslash slash *)
+            else if Nat.eqb n 98 then put 8%nat      (* b: backspace *)
+            else if Nat.eqb n 102 then put 12%nat    (* f: form feed *)
+            else if Nat.eqb n 110 then put 10%nat    (* n *)
+            else if Nat.eqb n 114 then put 13%nat    (* r *)
+            else if Nat.eqb n 116 then put 9%nat     (* t *)
+            else if Nat.eqb n 117 then Unsup         (* uXXXX *)
+            else jerr
+        end
+      else if Nat.ltb (nat_of_ascii c) 32 then jerr  (* strict: no control characters *)
+      else let* (t, k) := jstring r in Ok (String c t, k)
+  end.
+
+Fixpoint take_digits (s : string) : string * string :=
+  match s with
+  | String c r => if is_digit c then let (d, k) := take_digits r in (String c d, k) else (EmptyString, s)
+  | EmptyString => (EmptyString, EmptyString)
+  end.
+
+(** json.scanner NUMBER_RE: optional minus, then 0 or a non-zero digit followed by digits,
+    then an optional fraction and an optional exponent.  Integers only here; a fraction or an
+    exponent makes it a float: outside the model. [neg] = a minus sign was consumed. *)
+Definition jnumber (neg : bool) (s : string) : res (val * string) :=
+  let (ds, k) := take_digits s in
+  match ds with
+  | EmptyString => if neg then (match s with
+                                | String "I"%char _ => Unsup   (* -Infinity *)
+                                | _ => jerr end)
+                   else jerr
+  | String d0 more =>
+      (* a leading 0 ends the integer: "01" is 0 followed by extra data *)
+      let '(ds', k') := if Ascii.eqb d0 "0"%char then (String d0 EmptyString, (more ++ k))
+                        else (ds, k) in
+      match k' with
+      | String c _ =>
+          if Ascii.eqb c "."%char || Ascii.eqb c "e"%char || Ascii.eqb c "E"%char then Unsup
+          else let z := digits_to_Z ds' 0 in Ok (VInt (if neg then (- z)%Z else z), k')
+      | EmptyString => let z := digits_to_Z ds' 0 in Ok (VInt (if neg then (- z)%Z else z), k')
+      end
+  end.
+
+Definition strip_prefix (p s : string) : option string :=
+  if String.prefix p s then Some (substring (String.length p) (String.length s - String.length p) s)
+  else None.
+
+(** value / array tail / object tail, on fuel. [s] has leading whitespace already skipped. *)
+Fixpoint jvalue (fuel : nat) (s : string) : res (val * string) :=
+  match fuel with
+  | O => Unsup
+  | S f =>
+      match s with
+      | EmptyString => jerr
+      | String c r =>
+          if Ascii.eqb c dquote then let* (t, k) := jstring r in Ok (VStr t, k)
+          else if Ascii.eqb c "{"%char then
+            let r1 := skip_ws r in
+            match r1 with
+            | String c1 r2 =>
+                if Ascii.eqb c1 "}"%char then Ok (VDict [], r2)
+                else let* (ps, k) := jmembers f r1 in Ok (VDict (dict_update [] ps), k)
+            | EmptyString => jerr
+            end
+          else if Ascii.eqb c "["%char then
+            let r1 := skip_ws r in
+            match r1 with
+            | String c1 r2 =>
+                if Ascii.eqb c1 "]"%char then Ok (VList [], r2)
+                else let* (xs, k) := jelements f r1 in Ok (VList xs, k)
+            | EmptyString => jerr
+            end
+          else if Ascii.eqb c "-"%char then jnumber true r
+          else if is_digit c then jnumber false s
+          else match strip_prefix "true" s with Some k => Ok (VBool true, k) | None =>
+               match strip_prefix "false" s with Some k => Ok (VBool false, k) | None =>
+               match strip_prefix "null" s with Some k => Ok (VNone, k) | None =>
+               match strip_prefix "NaN" s with Some _ => Unsup | None =>
+               match strip_prefix "Infinity" s with Some _ => Unsup | None => jerr
+               end end end end end
+      end
+  end
+(** members: [s] starts at the opening quote of a key *)
+with jmembers (fuel : nat) (s : string) : res (list (val * val) * string) :=
+  match fuel with
+  | O => Unsup
+  | S f =>
+      match s with
+      | String c r =>
+          if Ascii.eqb c dquote then
+            let* (key, k1) := jstring r in
+            match skip_ws k1 with
+            | String c2 k2 =>
+                if Ascii.eqb c2 ":"%char then
+                  let* (v, k3) := jvalue f (skip_ws k2) in
+                  match skip_ws k3 with
+                  | String c4 k4 =>
+                      if Ascii.eqb c4 "}"%char then Ok ([(VStr key, v)], k4)
+                      else if Ascii.eqb c4 ","%char then
+                        let* (ps, k5) := jmembers f (skip_ws k4) in Ok ((VStr key, v) :: ps, k5)
+                      else jerr
+                  | EmptyString => jerr
+                  end
+                else jerr
+            | EmptyString => jerr
+            end
+          else jerr
+      | EmptyString => jerr
+      end
+  end
+with jelements (fuel : nat) (s : string) : res (list val * string) :=
+  match fuel with
+  | O => Unsup
+  | S f =>
+      let* (v, k1) := jvalue f s in
+      match skip_ws k1 with
+      | String c k2 =>
+          if Ascii.eqb c "]"%char then Ok ([v], k2)
+          else if Ascii.eqb c ","%char then
+            let* (xs, k3) := jelements f (skip_ws k2) in Ok (v :: xs, k3)
+          else jerr
+      | EmptyString => jerr
+      end
+  end.
+
+Definition json_loads (s : string) : res val :=
+  let* (v, k) := jvalue (S (String.length s)) (skip_ws s) in
+  match skip_ws k with
+  | EmptyString => Ok v
+  | _ => jerr          (* "Extra data" *)
+  end.
+
+Definition json_type_error_msg : string :=
+  "json input should describe an object at the top level. You should have something like "
+  ++ chr 10 ++ "{" ++ chr 10 ++ """key1"":""value1""," ++ chr 10 ++ """key2"":""value2"""
+  ++ chr 10 ++ "}" ++ chr 10 ++ "at the json top-level, not an [array] or literal.".
+
+Definition parse_json (a : args) : res (option dict) :=
+  if args_falsy a then Ok None
+  else
+    let* payload := json_loads (join " " (args_list a)) in
+    match payload with
+    | VDict d => Ok (Some d)
+    | _ => Err "TypeError" json_type_error_msg
+    end.
+
+(** * All parsers behind one name *)
+Inductive parser_id :=
+| PKeyValuePairs | PArgsKwargs | PDict | PList | PString | PKeys | PJson.
+
+Definition run_parser (p : parser_id) (a : args) : res (option dict) :=
+  match p with
+  | PKeyValuePairs => Ok (parse_keyvaluepairs a)
+  | PArgsKwargs => Ok (parse_argskwargs a)
+  | PDict => Ok (parse_dict a)
+  | PList => Ok (parse_list a)
+  | PString => Ok (parse_string a)
+  | PKeys => Ok (parse_keys a)
+  | PJson => parse_json a
+  end.
+
+(** * Comparison of observations *)
+Definition opt_dict_eqb (a b : option dict) : bool :=
+  match a, b with
+  | None, None => true
+  | Some x, Some y => dict_eqb x y
+  | _, _ => false
+  end.
+
+(** json decode errors are compared by type only (the harness blanks the message). *)
+Definition parser_verdict (p : parser_id) (a : args) (obs : res (option dict)) : nat :=
+  verdict opt_dict_eqb (run_parser p a) obs.
